@@ -325,6 +325,35 @@ package httpserver
 //@   ensures [path_keeps_everything_after_first_slash] hasSlash(key) ==> path == "/" + after(key)
 //@   ensures [no_slash_means_root] !hasSlash(key) ==> path == "/"
 
+//@ unit hide_casketfile frames=on props=C02 filter=`httpserver\.hideCasketfile$`
+//@ // The Casketfile a site was loaded from goes on the site's hide list whenever it lies under the site root, the two paths
+//@ // being compared in absolute form (absOf/absOK ARE filepath.Abs's results): root "." with -conf /srv/site/Casketfile counts.
+//@ spec absOf(p string) string
+//@ spec absOK(p string) bool
+//@ extern path/filepath.Abs
+//@   ensures (result1 == nil) == absOK(path)
+//@   ensures result1 == nil ==> result0 == absOf(path)
+//@ extern path/filepath.ToSlash
+//@   pure
+//@ extern strings.HasPrefix
+//@   pure
+//@ extern strings.TrimPrefix
+//@   pure
+//@ define cfgs() []*SiteConfig = (*httpContext)(cctx).siteConfigs
+//@ define under(c *SiteConfig) bool = strings.HasPrefix(absOf(c.originCasketfile), absOf(c.Root))
+//@ define hiddenName(c *SiteConfig) string = filepath.ToSlash(strings.TrimPrefix(absOf(c.originCasketfile), absOf(c.Root)))
+//@ define lastHidden(c *SiteConfig) string = c.HiddenFiles[len(c.HiddenFiles)-1]
+//@ func hideCasketfile
+//@   requires cctx != nil && forall(k, 0, len(cfgs()), cfgs()[k] != nil) && forall(k, 0, len(cfgs()), forall(j, 0, k, cfgs()[j] != cfgs()[k]))
+//@   modifies SiteConfig.HiddenFiles, E:string
+//@   ensures [casketfile_under_root_is_hidden] (result == nil && forall(k, 0, len(cfgs()), cfgs()[k].originCasketfile != "")) ==> forall(k, 0, len(cfgs()), under(cfgs()[k]) ==> (len(cfgs()[k].HiddenFiles) == old(len(cfgs()[k].HiddenFiles)) + 1 && lastHidden(cfgs()[k]) == hiddenName(cfgs()[k])))
+//@   ensures [abs_failure_is_reported] (forall(k, 0, len(cfgs()), cfgs()[k].originCasketfile != "") && exists(k, 0, len(cfgs()), !absOK(cfgs()[k].Root) || !absOK(cfgs()[k].originCasketfile))) ==> result != nil
+//@   loop 1 invariant 0 <= #i && #i <= len(ctx.siteConfigs) && ctx == cctx
+//@   loop 1 invariant forall(k, 0, #i, cfgs()[k].originCasketfile != "" && absOK(cfgs()[k].Root) && absOK(cfgs()[k].originCasketfile))
+//@   loop 1 invariant forall(k, 0, #i, under(cfgs()[k]) ==> len(cfgs()[k].HiddenFiles) == old(len(cfgs()[k].HiddenFiles)) + 1)
+//@   loop 1 invariant forall(k, 0, #i, under(cfgs()[k]) ==> lastHidden(cfgs()[k]) == hiddenName(cfgs()[k]))
+//@   loop 1 invariant forall(k, #i, len(cfgs()), len(cfgs()[k].HiddenFiles) == old(len(cfgs()[k].HiddenFiles)))
+
 //@ unit trie_match frames=on props=C01 filter=`vhostTrie\)\.Match$`
 //@ func (*vhostTrie).splitHostPath
 //@   pure
